@@ -230,7 +230,7 @@ class PropertyRun(object):
 
 def adopt_twin(modname, finding_patterns=()):
     """wrap a stand-alone twin module (twin/tCxx.py: twin(tier, seed), replay_history(history)) as the
-    property's twin()/replay_file(); finding_patterns: [(regex on violation key, finding id)]"""
+    property's twin()/replay_file(); finding_patterns: [(regex on 'key | what' of a violation, finding id)]"""
     import importlib
 
     def twin(tier, seed):
@@ -238,7 +238,7 @@ def adopt_twin(modname, finding_patterns=()):
         r = t.twin(tier, seed)
         for v in r.get('violations', []):
             for pat, fid in finding_patterns:
-                if re.search(pat, v.get('key', '')):
+                if re.search(pat, v.get('key', '')) or re.search(pat, v.get('key', '') + ' | ' + str(v.get('what', ''))):
                     v['finding'] = fid
                     break
         return r
